@@ -4,6 +4,7 @@ Decided clauses: borrow/detach pairing of every non-owning pointer or reference 
 objects, new => owner on all paths, advance-before-dispose in destroying loops, who-may-delete,
 reference parameters of library coroutines across suspension points.  Not decided: that the pointer
 surgery of list_elem keeps a well-formed ring (heap-shape reasoning)."""
+import re
 from engine import cfg, lib
 from engine.auto import cond_shape
 from engine.facts import erase, short_loc
@@ -345,6 +346,36 @@ def c14f_args(ctx, tu):
                        % (fn.rec["params"][i]["n"], fn.qe, why, cf.qe))
 
 
+def c14h(ctx, tu):
+    """The process-wide mutex must outlive static destruction: library objects with static storage duration (a global
+    mock for a C API, global NAMED expectations) lock it from their destructors after main() has returned.  In the
+    default configuration get_lock() therefore keeps the mutex in storage that is never destroyed - its function-local
+    statics are a raw buffer and a raw pointer.  A static local with a destructor (the mutex itself, a smart pointer
+    to it) would be destroyed in reverse order of first use, before such globals."""
+    n = 0
+    for fn in tu.find(NS + "get_lock"):
+        if "std::recursive_mutex" not in (fn.rec.get("ret") or ""):
+            continue      # user-supplied mutex type (TROMPELOEIL_CUSTOM_RECURSIVE_MUTEX): its lifetime is the user's
+        n += 1
+        statics = [e for b, e in fn.events() if e["e"] == "decl" and e.get("static")]
+        bad = None
+        for d in statics:
+            t = (d.get("type") or "").strip()
+            base = re.sub(r"\[[0-9]*\]$", "", t).strip()
+            trivial = base.endswith("*") or base in ("char", "unsigned char", "signed char", "std::byte", "bool", "int",
+                                                      "unsigned int", "long", "unsigned long")
+            if not trivial:
+                bad = "static local `%s` of type %s is destroyed during static destruction" % (d.get("name"), t)
+        news = [e for b, e in fn.events() if e["e"] == "new" and "recursive_mutex" in (e.get("type") or "")]
+        dels = [e for b, e in fn.events() if e["e"] == "delete"]
+        if bad is None and (not statics or not news or dels):
+            bad = "the mutex is not created once into storage that is never released"
+        ctx.ob("C14.h", NS + "get_lock", bad is None, pattern=fn.pat, unit=tu.name,
+               detail="" if bad is None else "the global lock must stay valid until the process ends (objects with static "
+               "storage lock it from their destructors): " + bad)
+    return n
+
+
 def c14g(ctx, tu):
     """SHAPE: the four list primitives keep a well-formed ring with the specified membership and order,
     on every canonical ring shape (0..3 elements, every operand position)."""
@@ -478,6 +509,7 @@ def run(ctx):
             c14cd(ctx, tu)
             c14e(ctx, tu)
             n_shape += c14g(ctx, tu)
+            c14h(ctx, tu)
         n_coro += c14f(ctx, tu)
         units.append({"unit": tu.name, "functions": len(tu.fns)})
     ctx.floor("C14.a classified pointer-like members", len(seen), 25)
